@@ -8,7 +8,8 @@ use crate::verif_refspec as rs;
 use crate::verif_shim as vk;
 
 macro_rules! c01_is_legal {
-    ($name:ident, $kind:expr, $color:expr) => {
+    ($name:ident, $name_pre:ident, $kind:expr, $color:expr) => {
+        // without prefilter: Move::validate = semi_validate + is_legal_unchecked (Checker<NilPrechecker>)
         harness! {
             #[kani::unwind(14)]
             #[kani::stub(crate::attack::rook, crate::verif_anyboard::stub_rook)]
@@ -22,11 +23,25 @@ macro_rules! c01_is_legal {
                 let rm = rs::rmove(mv);
                 vk::assume(rs::ref_pseudo(&b.r, rm));
                 let want = rs::ref_legal(&b.r, rm);
-                // without prefilter (Move::is_legal_unchecked, Move::validate)
-                assert!(Checker::new(&b, NilPrechecker).is_legal(mv) == want);
                 assert!(unsafe { mv.is_legal_unchecked(&b) } == want);
-                assert!(mv.validate(&b).is_ok() == want);
-                // with the pin / check prefilter (legal generators, has_legal_moves, SAN)
+                cover!(want);
+                cover!(!want);
+            }
+        }
+        // with the pin / check prefilter (legal generators, has_legal_moves, SAN)
+        harness! {
+            #[kani::unwind(14)]
+            #[kani::stub(crate::attack::rook, crate::verif_anyboard::stub_rook)]
+            #[kani::stub(crate::attack::bishop, crate::verif_anyboard::stub_bishop)]
+            fn $name_pre() {
+                let b = ab::any_board_side($color);
+                ab::assume_one_king_each(&b);
+                ab::assume_ep_consistent(&b);
+                ab::assume_castling_normal(&b);
+                let mv = ab::any_move_of_kind($kind);
+                let rm = rs::rmove(mv);
+                vk::assume(rs::ref_pseudo(&b.r, rm));
+                let want = rs::ref_legal(&b.r, rm);
                 assert!(Checker::new(&b, DefaultPrechecker::new(&b)).is_legal(mv) == want);
                 cover!(want);
                 cover!(!want);
@@ -34,21 +49,21 @@ macro_rules! c01_is_legal {
         }
     };
 }
-c01_is_legal!(c01_is_legal_simple_w, MoveKind::Simple, Color::White);
-c01_is_legal!(c01_is_legal_simple_b, MoveKind::Simple, Color::Black);
-c01_is_legal!(c01_is_legal_castle_k_w, MoveKind::CastlingKingside, Color::White);
-c01_is_legal!(c01_is_legal_castle_k_b, MoveKind::CastlingKingside, Color::Black);
-c01_is_legal!(c01_is_legal_castle_q_w, MoveKind::CastlingQueenside, Color::White);
-c01_is_legal!(c01_is_legal_castle_q_b, MoveKind::CastlingQueenside, Color::Black);
-c01_is_legal!(c01_is_legal_double_w, MoveKind::PawnDouble, Color::White);
-c01_is_legal!(c01_is_legal_double_b, MoveKind::PawnDouble, Color::Black);
-c01_is_legal!(c01_is_legal_ep_w, MoveKind::Enpassant, Color::White);
-c01_is_legal!(c01_is_legal_ep_b, MoveKind::Enpassant, Color::Black);
-c01_is_legal!(c01_is_legal_promo_n_w, MoveKind::PromoteKnight, Color::White);
-c01_is_legal!(c01_is_legal_promo_n_b, MoveKind::PromoteKnight, Color::Black);
-c01_is_legal!(c01_is_legal_promo_b_w, MoveKind::PromoteBishop, Color::White);
-c01_is_legal!(c01_is_legal_promo_b_b, MoveKind::PromoteBishop, Color::Black);
-c01_is_legal!(c01_is_legal_promo_r_w, MoveKind::PromoteRook, Color::White);
-c01_is_legal!(c01_is_legal_promo_r_b, MoveKind::PromoteRook, Color::Black);
-c01_is_legal!(c01_is_legal_promo_q_w, MoveKind::PromoteQueen, Color::White);
-c01_is_legal!(c01_is_legal_promo_q_b, MoveKind::PromoteQueen, Color::Black);
+c01_is_legal!(c01_is_legal_simple_w, c01_is_legal_pre_simple_w, MoveKind::Simple, Color::White);
+c01_is_legal!(c01_is_legal_simple_b, c01_is_legal_pre_simple_b, MoveKind::Simple, Color::Black);
+c01_is_legal!(c01_is_legal_castle_k_w, c01_is_legal_pre_castle_k_w, MoveKind::CastlingKingside, Color::White);
+c01_is_legal!(c01_is_legal_castle_k_b, c01_is_legal_pre_castle_k_b, MoveKind::CastlingKingside, Color::Black);
+c01_is_legal!(c01_is_legal_castle_q_w, c01_is_legal_pre_castle_q_w, MoveKind::CastlingQueenside, Color::White);
+c01_is_legal!(c01_is_legal_castle_q_b, c01_is_legal_pre_castle_q_b, MoveKind::CastlingQueenside, Color::Black);
+c01_is_legal!(c01_is_legal_double_w, c01_is_legal_pre_double_w, MoveKind::PawnDouble, Color::White);
+c01_is_legal!(c01_is_legal_double_b, c01_is_legal_pre_double_b, MoveKind::PawnDouble, Color::Black);
+c01_is_legal!(c01_is_legal_ep_w, c01_is_legal_pre_ep_w, MoveKind::Enpassant, Color::White);
+c01_is_legal!(c01_is_legal_ep_b, c01_is_legal_pre_ep_b, MoveKind::Enpassant, Color::Black);
+c01_is_legal!(c01_is_legal_promo_n_w, c01_is_legal_pre_promo_n_w, MoveKind::PromoteKnight, Color::White);
+c01_is_legal!(c01_is_legal_promo_n_b, c01_is_legal_pre_promo_n_b, MoveKind::PromoteKnight, Color::Black);
+c01_is_legal!(c01_is_legal_promo_b_w, c01_is_legal_pre_promo_b_w, MoveKind::PromoteBishop, Color::White);
+c01_is_legal!(c01_is_legal_promo_b_b, c01_is_legal_pre_promo_b_b, MoveKind::PromoteBishop, Color::Black);
+c01_is_legal!(c01_is_legal_promo_r_w, c01_is_legal_pre_promo_r_w, MoveKind::PromoteRook, Color::White);
+c01_is_legal!(c01_is_legal_promo_r_b, c01_is_legal_pre_promo_r_b, MoveKind::PromoteRook, Color::Black);
+c01_is_legal!(c01_is_legal_promo_q_w, c01_is_legal_pre_promo_q_w, MoveKind::PromoteQueen, Color::White);
+c01_is_legal!(c01_is_legal_promo_q_b, c01_is_legal_pre_promo_q_b, MoveKind::PromoteQueen, Color::Black);
